@@ -916,6 +916,116 @@ def run(chk: Check) -> None:
             C.add(f"ccget {fod(d)} {cps(key)} {ccv(empty)} {tyname[ty]}", lambda: ccv(getattr(cls(d), name)))
         C.add(f"ccget ~ {cps(key)} {ccv(empty)} {tyname[ty]}", lambda: ccv(getattr(cls({}), name)))
 
+    # ------------------------------------------------------------ purity: parsing is a function of the text
+    # p(h) -> r1; snapshot; mutate r1 in place where it is mutable; p(h) again -> r2: r2 must equal the snapshot and be a new object
+    # (state that survives between calls - a cache handing out a shared dict - is invisible to serialise -> parse -> compare)
+    def snap(r):
+        if r is None or isinstance(r, (str, int, float, bool)):
+            return r
+        if isinstance(r, tuple):
+            return ("tuple", tuple(snap(x) for x in r))
+        if isinstance(r, ds.ETags):
+            return ("etags", sorted(r._strong), sorted(r._weak), r.star_tag)
+        if isinstance(r, ds.Range):
+            return ("range", r.units, [tuple(x) for x in r.ranges])
+        if isinstance(r, ds.ContentRange):
+            return ("crange", r.units, r.start, r.stop, r.length)
+        if isinstance(r, (ds.Authorization, ds.WWWAuthenticate)):
+            return ("auth", r.type, sorted(dict(r.parameters).items(), key=repr), r.token)
+        if isinstance(r, ds.HeaderSet):
+            return ("set", list(r))
+        if isinstance(r, dict):
+            return ("dict", type(r).__name__, [(k, snap(v)) for k, v in r.items()])
+        if isinstance(r, list):
+            return ("list", type(r).__name__, [snap(x) for x in r])
+        return ("repr", repr(r))
+
+    def mutate(r):
+        """edit r in place through its public surface; True when it is a mutable result."""
+        try:
+            if isinstance(r, tuple):
+                return any([mutate(x) for x in r])
+            if isinstance(r, ds.HeaderSet):
+                r.add("x-purity-probe")
+                if len(r) > 1:
+                    r.discard(r[0])
+                return True
+            if isinstance(r, dict):
+                keys = list(r)
+                r["x-purity-probe"] = "1"
+                if keys:
+                    r[keys[0]] = "overwritten"
+                if len(keys) > 1:
+                    del r[keys[1]]
+                return True
+            if isinstance(r, list):
+                r.append("x-purity-probe")
+                return True
+            if isinstance(r, ds.Range):
+                r.ranges.append((10 ** 9, None))
+                r.units = "x-purity-probe"
+                return True
+            if isinstance(r, ds.ContentRange):
+                r.units = "x-purity-probe"
+                return True
+            if isinstance(r, ds.ETags):
+                r.star_tag = not r.star_tag
+                return True
+            if isinstance(r, ds.WWWAuthenticate):
+                r.parameters["x-purity-probe"] = "1"
+                r.type = "x-purity-probe"
+                return True
+            if isinstance(r, ds.Authorization):
+                r.parameters["x-purity-probe"] = "1"
+                r.token = "x-purity-probe"
+                r.type = "x-purity-probe"
+                return True
+        except (TypeError, AttributeError):
+            return False        # immutable result (ImmutableList, RequestCacheControl ...): nothing to share
+        return False
+    PURE = [("parse_options_header", H.parse_options_header), ("parse_dict_header", H.parse_dict_header), ("parse_list_header", H.parse_list_header),
+            ("parse_set_header", H.parse_set_header), ("parse_cache_control_header", H.parse_cache_control_header),
+            ("parse_cache_control_header[Response]", lambda h: H.parse_cache_control_header(h, cls=ds.ResponseCacheControl)),
+            ("parse_csp_header", H.parse_csp_header), ("parse_etags", H.parse_etags), ("parse_range_header", H.parse_range_header),
+            ("parse_content_range_header", H.parse_content_range_header), ("parse_accept_header", H.parse_accept_header),
+            ("parse_accept_header[MIME]", lambda h: H.parse_accept_header(h, ds.MIMEAccept)),
+            ("Authorization.from_header", ds.Authorization.from_header), ("WWWAuthenticate.from_header", ds.WWWAuthenticate.from_header)]
+    pure_texts = ["text/html; charset=utf-8", 'form-data; name="a"; filename="b.txt"', "a=b, c=d, e", "max-age=5, no-cache", "default-src 'self'; img-src *",
+                  '"a", W/"b"', "bytes=0-9,20-29", "bytes 0-9/20", "text/html;q=0.5, */*;q=0.1;level=1", "Digest realm=x, nonce=y", "Basic dXNlcjpwYXNz", "Bearer abc",
+                  "a, b, c", "attachment; filename*=utf-8''%C3%A9; x=1"] + oh[:n // 4] + dh[:n // 4] + eh[:n // 8] + rh[:n // 8] + [gen_hostile(rng) for _ in range(n // 4)]
+    for h in pure_texts:
+        for pname, pfn in PURE:
+            try:
+                r1 = T(lambda: pfn(h))
+                want = snap(r1)
+                was_mutable = mutate(r1)
+                r2 = T(lambda: pfn(h))
+                got = snap(r2)
+            except Exception:  # noqa: BLE001  (a parser that raises is C07's business)
+                continue
+            if got != want:
+                rt_fail("parser-not-pure", f"{pname}({h!r}) after its previous result was edited returns {got!r}, first call returned {want!r}", {"parser": pname, "header": h})
+            elif was_mutable and r2 is r1:
+                rt_fail("parser-not-pure", f"{pname}({h!r}) hands out the same mutable object on every call", {"parser": pname, "header": h})
+            chk.case(("pure", pname, h))
+    # the same through two successive requests with the same Content-Type
+    from werkzeug.wrappers import Request as _Req
+    for ct in ["text/html; charset=utf-8", 'multipart/form-data; boundary="x y"', "a/b; k=v; j=w"] + [t for t in oh[:n // 8] if all(ord(c) < 256 for c in t)]:
+        try:
+            env = {"REQUEST_METHOD": "GET", "CONTENT_TYPE": ct, "wsgi.url_scheme": "http", "SERVER_NAME": "l", "SERVER_PORT": "80"}
+            p1 = T(lambda: _Req(dict(env)).mimetype_params)
+            want = dict(p1)
+            p1["x-purity-probe"] = "1"
+            for k in list(want):
+                p1[k] = "overwritten"
+            p2 = T(lambda: _Req(dict(env)).mimetype_params)
+        except Exception:  # noqa: BLE001
+            continue
+        if dict(p2) != want or p2 is p1:
+            rt_fail("parser-not-pure", f"Request.mimetype_params for Content-Type {ct!r}: a second request sees {dict(p2)!r} after the first request's dict was edited "
+                    f"(first saw {want!r})", {"content_type": ct})
+        chk.case(("pure-request", ct))
+
     # ------------------------------------------------------------ base64 and the auth schemes
     import base64
     for _ in range(n // 2):
